@@ -6,11 +6,22 @@ import (
 )
 
 // HProtectRoundTrip (C01): DecodeDecrypt(EncodeEncrypt(m, kS, role), hdr, kR, !role) == m.
-// Params: suite, sender role (0 initiator / 1 responder), hdrMode (0 nil, 1 parsed), tier, payload kinds..., 0.
+// Params: suite, sender role (0 initiator / 1 responder), hdrMode (0 nil, 1 parsed; +2 = sender and
+// receiver are one and the same SA key object; +4 = both objects have been used before, i.e. their
+// keyed-hash objects hold arbitrary octets), tier, payload kinds..., 0.
 func HProtectRoundTrip() {
 	suite, role, hdrMode, tier := vr.Param(0), vr.Param(1), vr.Param(2), vr.Param(3)
 	km := VGenKeyMaterial(suite)
-	kS, kR := VNewKey(km), VNewKey(km)
+	junk := 0
+	if hdrMode&4 != 0 {
+		junk = 3
+	}
+	kS := vUsedKey(km, junk)
+	kR := kS
+	if hdrMode&2 == 0 {
+		kR = vUsedKey(km, junk)
+	}
+	hdrMode &= 1
 	m := message.VGenMessage(4, tier)
 	orig := append(message.IKEPayloadContainer{}, m.Payloads...)
 	hdr := *m.IKEHeader
